@@ -1,0 +1,102 @@
+//! Schedule points for controlled-interleaving verification runs.
+//!
+//! Compiled only with `--cfg zipora_verif`.  A verification harness installs a
+//! per-thread callback; the lock-free pool code calls [`point`] immediately
+//! *before* each access to shared free-list state and [`note`] immediately
+//! *after* it with the value it observed.  Without an installed callback both
+//! functions do nothing, so ordinary test runs under the cfg are unaffected.
+
+use std::cell::RefCell;
+
+/// What a callback is told: `(kind, site, value)`.
+/// `kind` is [`KIND_POINT`] (the thread may be parked here by the scheduler)
+/// or [`KIND_NOTE`] (an observation; must not block).
+pub type Callback = Box<dyn FnMut(u32, u32, u64)>;
+
+/// The thread is about to perform the shared access identified by `site`.
+pub const KIND_POINT: u32 = 0;
+/// The thread has just performed the access at `site` and observed `value`.
+pub const KIND_NOTE: u32 = 1;
+
+// Site numbers.  x1 = head load, x2 = next-word read/write, x3 = compare-exchange,
+// x4 = counter update, x5 = bump allocation (load of the bump offset), x6 = its compare-exchange.
+/// lockfree_pool.rs `allocate_from_fast_bin`
+pub const LF_POP_LOAD: u32 = 11;
+pub const LF_POP_NEXT: u32 = 12;
+pub const LF_POP_CAS: u32 = 13;
+pub const LF_POP_COUNT: u32 = 14;
+pub const LF_BUMP: u32 = 15;
+pub const LF_BUMP_CAS: u32 = 16;
+/// lockfree_pool.rs `deallocate_to_fast_bin`
+pub const LF_PUSH_LOAD: u32 = 21;
+pub const LF_PUSH_NEXT: u32 = 22;
+pub const LF_PUSH_CAS: u32 = 23;
+pub const LF_PUSH_COUNT: u32 = 24;
+/// five_level_pool.rs `LockFreePool::alloc_from_fast_bin_lockfree`
+pub const FL_POP_LOAD: u32 = 31;
+pub const FL_POP_NEXT: u32 = 32;
+pub const FL_POP_CAS: u32 = 33;
+pub const FL_POP_COUNT: u32 = 34;
+pub const FL_BUMP: u32 = 35;
+/// five_level_pool.rs `LockFreePool::free_to_fast_bin_lockfree`
+pub const FL_PUSH_LOAD: u32 = 41;
+pub const FL_PUSH_NEXT: u32 = 42;
+pub const FL_PUSH_CAS: u32 = 43;
+pub const FL_PUSH_COUNT: u32 = 44;
+/// fixed_capacity_pool.rs `allocate_from_free_list` / `allocate_by_splitting`
+pub const FC_POP_LOAD: u32 = 51;
+pub const FC_POP_NEXT: u32 = 52;
+pub const FC_POP_CAS: u32 = 53;
+pub const FC_POP_COUNT: u32 = 54;
+pub const FC_SPLIT_PEEK: u32 = 55;
+/// fixed_capacity_pool.rs `deallocate_to_free_list`
+pub const FC_PUSH_LOAD: u32 = 61;
+pub const FC_PUSH_NEXT: u32 = 62;
+pub const FC_PUSH_CAS: u32 = 63;
+pub const FC_PUSH_COUNT: u32 = 64;
+/// secure_pool.rs `LockFreeStack::pop`
+pub const SP_POP_LOAD: u32 = 71;
+pub const SP_POP_NEXT: u32 = 72;
+pub const SP_POP_CAS: u32 = 73;
+/// secure_pool.rs `LockFreeStack::push`
+pub const SP_PUSH_LOAD: u32 = 81;
+pub const SP_PUSH_NEXT: u32 = 82;
+pub const SP_PUSH_CAS: u32 = 83;
+
+thread_local! {
+    static HOOK: RefCell<Option<Callback>> = const { RefCell::new(None) };
+}
+
+/// Install the callback for the calling thread (replacing any previous one).
+pub fn install(cb: Callback) {
+    HOOK.with(|h| *h.borrow_mut() = Some(cb));
+}
+
+/// Remove the calling thread's callback.
+pub fn uninstall() {
+    HOOK.with(|h| *h.borrow_mut() = None);
+}
+
+#[inline]
+fn call(kind: u32, site: u32, value: u64) {
+    // try_with: the pools may be used during thread teardown
+    let _ = HOOK.try_with(|h| {
+        if let Ok(mut g) = h.try_borrow_mut() {
+            if let Some(cb) = g.as_mut() {
+                cb(kind, site, value);
+            }
+        }
+    });
+}
+
+/// Schedule point: the caller is about to access shared state at `site`.
+#[inline]
+pub fn point(site: u32) {
+    call(KIND_POINT, site, 0);
+}
+
+/// Observation: the access at `site` yielded `value`.
+#[inline]
+pub fn note(site: u32, value: u64) {
+    call(KIND_NOTE, site, value);
+}
